@@ -161,6 +161,40 @@ pub fn vecdeque_remove_stub<T, A: std::alloc::Allocator>(v: &mut std::collection
     out
 }
 
+/// Path stubs for the filesystem harnesses (DESIGN.md 2.3). std compares and splits paths by
+/// iterating `Components` backwards byte by byte; on heap-stored `PathBuf`s the symbolic executor
+/// unwinds those parser loops at every comparison (measured: one create+write+read did not finish in
+/// 10 min, 1293 unwindings of `parse_next_component_back`). Under the stated assumption that every
+/// path a harness uses is ABSOLUTE and NORMALISED (no `.`/`..`/`//`/trailing slash; the concrete
+/// path pools guarantee it) byte equality and "cut at the last slash" are equivalent.
+pub fn stub_components_eq(a: &std::path::Components<'_>, b: &std::path::Components<'_>) -> bool {
+    let x = a.as_path().as_os_str().as_encoded_bytes();
+    let y = b.as_path().as_os_str().as_encoded_bytes();
+    if x.len() != y.len() {
+        return false;
+    }
+    let mut i = 0;
+    while i < x.len() {
+        if x[i] != y[i] {
+            return false;
+        }
+        i += 1;
+    }
+    true
+}
+pub fn stub_path_parent(p: &std::path::Path) -> Option<&std::path::Path> {
+    let b = p.as_os_str().as_encoded_bytes();
+    if b.len() <= 1 {
+        return None; // "/" (or empty) has no parent
+    }
+    let mut i = b.len() - 1;
+    while i > 0 && b[i] != b'/' {
+        i -= 1;
+    }
+    let cut = if i == 0 { 1 } else { i };
+    Some(std::path::Path::new(unsafe { std::ffi::OsStr::from_encoded_bytes_unchecked(&b[..cut]) }))
+}
+
 #[macro_export]
 macro_rules! verif_proof {
     (unwind = $u:expr; $($item:tt)*) => {
